@@ -280,3 +280,165 @@ def declare_then_fail_sessions():
             out.append(["stel a = 1", line] + rd + ["a"])
             out.append(["stel a = 1", "stel z = 0", line, "z"] + rd)
     return out
+
+
+def rebinding_programs():
+    """the callee of a call is WHATEVER VALUE THE NAME HOLDS WHEN THE CALL RUNS (round 9): call sites compiled before a
+    re-assignment of the name and executed after it (inside an earlier function, earlier in a loop body, inside the function
+    that replaces itself), names re-bound to non-callable values of every kind, at top level, in blocks and inside functions;
+    an early-bound / cached callee gives the old function"""
+    out = []
+    non = ["5", "ja", "1.5", '"tekst"', "[1]", "leeg()", "type(1)"]
+    for v in non:
+        out.append("functie leeg() { }; stel x = %s; x(1)" % v)
+        out.append("functie leeg() { }; functie w() { stel y = %s; y() }; w()" % v)
+        out.append("functie leeg() { }; functie f() { 1 }; functie g() { f() }; stel a = g(); f = %s; [a, g()]" % v)
+        out.append("functie leeg() { }; functie f(p) { p(2) }; f(%s)" % v)
+    for scope in ("%s", "{ %s };", "functie hoofd() { %s }; hoofd()", "als ja { %s }"):
+        for body in [
+            "functie f() { 1 }; functie g() { f() }; stel a = g(); f = functie() { 2 }; [a, g(), f()]",
+            "functie f() { 1 }; stel i = 0; stel r = []; zolang i < 3 { r = [r, f()]; f = functie() { 2 + i }; i += 1 }; r",
+            "functie f() { f = functie() { 2 }; 1 }; [f(), f(), f()]",
+            "functie f(n) { als n > 0 { f = functie(m) { m * 10 }; antwoord f(n - 1) }; n }; [f(3), f(3)]",
+            "functie f() { 1 }; stel h = f; f = functie() { 3 }; [h(), f()]",
+            "functie f() { 1 }; functie g() { 2 }; stel t = f; f = g; g = t; [f(), g()]",
+            "functie f() { 1 }; stel k = 0; stel r = 0; zolang k < 2 { k += 1; als k == 2 { r = f() }; f = functie() { 9 } }; r",
+            "functie f() { 1 }; functie g() { f() }; stel f2 = f; { stel f = functie() { 7 }; print(g(), f()) }; [g(), f2()]",
+            "stel f = functie() { 1 }; functie g() { f() }; f = functie() { 2 }; g()",
+            "functie f(a) { a + 1 }; functie twee(q) { q(q(1)) }; stel x = twee(f); f = functie(a) { a * 5 }; [x, twee(f)]",
+        ]:
+            out.append(scope % body)
+    return out
+
+
+def stale_slot_programs():
+    """a FRESH activation: every slot a call does not bind is null whatever was written at that stack height before (round 9):
+    a fuller earlier call, a deeper expression or literal, a deeper recursion, another function's locals"""
+    out = []
+    for np_ in (2, 3, 4, 6):
+        ps = ["p%d" % i for i in range(np_)]
+        f = "functie f(%s) { [%s] };" % (", ".join(ps), ", ".join(ps))
+        full = "f(%s)" % ", ".join(str(10 + i) for i in range(np_))
+        for na in range(0, np_):
+            part = "f(%s)" % ", ".join(str(70 + i) for i in range(na))
+            out.append("%s %s; %s" % (f, full, part))
+            out.append("%s [%s]; %s" % (f, ", ".join('"s%d"' % i for i in range(np_ + 3)), part))
+            out.append("%s functie diep(n) { stel a = n; stel b = [n]; stel c = \"x\"; als n > 0 { diep(n - 1) }; a }; diep(4); %s" % (f, part))
+            out.append("%s stel r = [%s, %s, %s]; r" % (f, full, part, part))
+            out.append("%s functie g() { stel u = 1; stel v = 2.5; stel w = [3]; %s }; [%s, g(), g()]" % (f, part, full))
+            out.append("%s 1 + (2 + (3 + (4 + (5 + lengte(%s)))));  [%s, 1 + (2 * (3 + lengte(%s))), %s]" % (f, full, part, full, part))
+    out.append("functie f(n, a, b) { als n > 0 { antwoord f(n - 1, n, [n]) }; [a, b] }; [f(3, 1, 1), f(0), f(2), f(0)]")
+    out.append("functie f(a, b) { stel l = b; als a { l = 5 }; l }; [f(ja, 9), f(nee), f(ja), f(nee, 1), f(nee)]")
+    return out
+
+
+def failed_scope_leak_sessions():
+    """retained sessions (round 9): a line REJECTED BY THE COMPILER after it declared names in some scope (a top-level block, an
+    `als`/`zolang` body, a function's parameters and locals, nested blocks, the top level itself), once or several times in a row
+    (with parse failures and run-time failures in between), then lines that merely USE those names: a name only a rejected line
+    declared is undeclared (reference error), a global that a rejected line shadowed or re-declared still has its value.
+    Returns (session, expected) pairs; expected[i] is None where only the model decides."""
+    fails = [("{ stel t = 1; zz }", ["t"]), ("als ja { stel t = 2; stop }", ["t"]), ("zolang ja { stel t = 3; stel u = 4; zz }", ["t", "u"]),
+             ("functie f(t) { zz }", ["t", "f"]), ("functie f() { stel t = 1; { stel u = 2; zz } }", ["t", "u", "f"]),
+             ("{ { stel t = 1; stel u = t; antwoord 1 } }", ["t", "u"]), ("stel t = zz", ["t"]), ("stel t = 1; zz", ["t"]),
+             ("stel t = 1; { stel u = 2; zz }", ["t", "u"]), ("stel t = functie(u) { zz }", ["t", "u"]), ("[1, { stel t = 5; zz }]", ["t"]),
+             ("als nee { 1 } anders { stel t = 1; volgende }", ["t"]), ("{ stel g0 = 9; zz }", []), ("als ja { stel g0 = 2; stop }", []),
+             ("stel g0 = g0 + zz", []), ("functie g0() { zz }", []), ("{ stel g0 = 5; { stel g0 = 6; zz } }", []), ("stel g0 = 3; stel g1 = zz", ["g1"])]
+    between = [[], ["stel +"], ["1 / 0"], ["{ stel w = zz }"], ["stel v = 1; v"], ["stel +", "{ { zz } }"]]
+    out = []
+    for i, (f, names) in enumerate(fails):
+        for j in range(len(between)):
+            b = between[(i + j) % len(between)] if j else []
+            s = ["stel g0 = 11", f] + b
+            exp = [None] * len(s)
+            for n in names:
+                s.append(n)
+                exp.append("err Reference")
+                s.append("functie lees_%s() { %s }; 0" % (n, n))
+                exp.append("err Reference")
+            s += ["g0", "g0 = g0 + 1; g0", "{ stel t = 70; t }", "g0"]
+            exp += ["ok i:11", "ok i:12", "ok i:70", "ok i:12"]
+            out.append((s, exp))
+            if j >= 2:
+                # the same rejected line twice in a row, and two different ones
+                f2 = fails[(i + j) % len(fails)][0]
+                s2 = ["stel g0 = 11", f, f2] + b + [f] + [n for n in names] + ["g0"]
+                out.append((s2, [None] * (3 + len(b) + 1) + ["err Reference"] * len(names) + ["ok i:11"]))
+    return out
+
+
+def operand_height_programs():
+    """how HIGH the operand stack gets is bounded only at calls (round 9): array literals and argument lists nested so that the
+    operands pending at once number 65 535, 65 536, 131 071 .. 131 073 (twice the frame limit), 200 000, 270 000 — the values
+    must simply be computed (a fixed-size or unchecked stack dies here)"""
+    def lit(n):
+        return ", ".join(["0"] * n)
+    out = []
+    for total, levels in [(65535, 1), (65536, 2), (131071, 3), (131072, 3), (131073, 3), (131090, 3), (200000, 4), (270000, 5)]:
+        counts = []
+        left = total
+        for k in range(levels):
+            c = min(65534, left - (levels - 1 - k))
+            counts.append(c)
+            left -= c
+        inner = "[%s]" % lit(counts[-1])
+        for c in reversed(counts[:-1]):
+            inner = "[%s, %s]" % (lit(c), inner)
+        out.append(("operand-height", "lengte(%s)" % inner))
+        out.append(("operand-height", "type(%s) == \"lijst\"" % inner.replace("[", "[1.5, ", 1)))
+    out.append(("operand-height", "functie f(a, b) { lengte(b) }; f(1, [%s, [%s, f(2, [%s])]])" % (lit(65000), lit(65000), lit(3000))))
+    return out
+
+
+def deep_tower_programs():
+    """values under DEEP nesting across collections (round 9): a heap value beneath a tower of D nested lists held by a global / a
+    local / an argument while functions return (each return collects), for D around every power of two up to 8192 and around
+    255/256/257, 511..515, 1023..1025: the value is still there afterwards and everything is released at the end"""
+    out = []
+    ds = [1, 2, 3, 15, 16, 17, 63, 64, 65, 127, 128, 129, 254, 255, 256, 257, 258, 300, 511, 512, 513, 514, 515, 516, 600, 1023, 1024, 1025, 1026, 1500,
+          2047, 2048, 2049, 3000, 4096, 4100, 8192, 8200]
+    for d in ds:
+        out.append("stel t = [2.5]; stel i = 0; zolang i < %d { t = [t]; i += 1 };\nfunctie f() { [0.5] }; f(); stel x = 7.25; stel y = f(); stel z = 1.5 + 2.0;\n"
+                   "stel i = 0; zolang i < %d { t = t[0]; i += 1 }; [t[0], x, z, y]" % (d, d))
+        if d % 2 == 0 or d > 500:
+            out.append("functie toren(n) { stel t = [\"diep\", [3.5]]; stel i = 0; zolang i < n { t = [t, i]; i += 1 }; t };\nfunctie niets() { 0 };\n"
+                       "functie af(t, n) { stel i = 0; zolang i < n { t = t[0]; i += 1 }; niets(); t };\nstel a = toren(%d); niets(); stel g = [1.25]; niets(); [af(a, %d), g, af(toren(%d), %d)]" % (d, d, d, d))
+    return out
+
+
+def offset_sweep_programs(top, full=False):
+    """WHERE THE CODE LIES must not matter (round 9, C11): control-flow programs after n bytes of padding for EVERY n up to `top`, both
+    parities, so that every loop head, loop exit, branch target and join point lands on every byte offset — a placeholder value,
+    sentinel or table keyed on an absolute offset (1337, 0xFFFF, 256, ...) changes the control flow of exactly one of these"""
+    bodies = [
+        # loop with volgende and stop, an if/else inside, an inner loop that stops, a trailing if/else chain: many jump kinds at once
+        ("stel i = 0; stel s = 0; zolang i < 6 { i += 1; als i == 2 { volgende }; als i == 5 { stop } anders { s = s + i }; "
+         "stel j = 0; zolang ja { j += 1; als j > 2 { stop } }; s = s + j }; als s > 100 { 0 } anders als s > 5 { [i, s] } anders { 1 }", "ok a:[i:5 i:17]"),
+        ("stel n = 0; stel k = 0; zolang k < 10 { k += 1; n = n + k }; n", "ok i:55"),
+        ("functie f(a) { stel i = 0; zolang i < 4 { i += 1; als i == a { antwoord i * 10 } }; 0 - 1 }; [f(2), f(9)]", "ok a:[i:20 i:-1]"),
+    ]
+    out = []
+    for n in range(top):
+        for parity in ("", "-1;"):
+            pad = parity + "ja;" * n
+            ks = range(len(bodies)) if full else [(n + (1 if parity else 0)) % len(bodies)] + ([0] if n % 2 == 0 else [])
+            for k in set(ks):
+                out.append((pad + bodies[k][0], bodies[k][1]))
+    return out
+
+
+def inplace_then_builtin_programs():
+    """builtins on a text that was MODIFIED IN PLACE (round 9, C14): a character replaced by text of the same BYTE size but another
+    number of characters (é→ee, €→abc/éa, 😀→abcd/éé/€a) or of another size; then lengte/string/bool/type/int/float/print of it —
+    a count, hash or rendering remembered from before the change is stale"""
+    subs = [("é", ["ee", "e", "", "éé", "€"]), ("€", ["abc", "éa", "aé", "é", "", "😀", "a"]), ("😀", ["abcd", "éé", "€a", "a€", "é", "", "€€"]), ("a", ["é", "", "bc", "😀"])]
+    out = []
+    for c, rs in subs:
+        for r in rs:
+            for s0, ix in [("caf" + c, 3), (c + "5", 0), ("x" + c + "y" + c, -1), (c, 0), ("12" + c, 2)]:
+                out.append('stel s = "%s"; stel n0 = lengte(s); s[%d] = "%s"; [lengte(s), n0, string(s), bool(s), type(s), s == "%s", lengte(string(s))]'
+                           % (s0, ix, r, s0))
+                out.append('stel s = "%s"; lengte(s); s[%d] = "%s"; lengte(s); s[0] = "%s"; print("{}|{}", s, lengte(s)); [s, lengte(s)]' % (s0, ix, r, r))
+    out.append('stel s = "1é"; lengte(s); s[1] = "23"; [int(s), float(s), lengte(s)]')
+    out.append('stel s = "€"; lengte(s); s[0] = "1.5"; [float(s), lengte(s), s]')
+    return out
